@@ -32,6 +32,7 @@ Definition check_s (keywords : list str) (c : scase) : bool :=
        value_sim 20 (VList args) (VList args') && value_sim 20 (VDict kw) (VDict kw')
        && (if sc_flags_observed c then flags_sim flags flags' else true) && Bool.eqb closed closed'
      | RErr ELeaf, RFail _ => true
+     | RErr _, RFail EAny => true
      | RErr e, RFail e' => rerr_eqb e e'
      | _, _ => false
      end.
